@@ -134,7 +134,7 @@ func runGenJob(t *testing.T, job genJob) genResult {
 			}
 		}()
 		if job.Direct != nil {
-			genErr = verifDirectWrite(job.Direct.Outdir, job.Direct.Files, job.Direct.Marker)
+			genErr = verifDirectWrite(job.Direct.Outdir, expandFiles(job.Direct.Files), job.Direct.Marker)
 		} else {
 			genErr = verifGenerate(job.Args)
 		}
@@ -303,6 +303,10 @@ func triples() []genTriple {
 		{Name: "go-masks-split-bytes", Tool: "tl2gen", Args: append(append([]string{}, goBase...), "--split-internal", "--pkgPath=github.com/VKCOM/tl/x/masks/tl", "--generateByteVersions=*"), Inputs: []string{xsDir + "masks.tl"}, Marker: "meta/meta.go"},
 		{Name: "php-masks", Tool: "tl2gen", Args: []string{"--language=php", "--php-rpc-support=true", "--php-serialization-bodies=true", "--php-generate-fetchers=true", "--php-generate-switcher=true", "--php-use-builtin-data-providers=true", "--php-add-type-comments=true", "--php-generate-fetchers-echo-comment=false"}, Inputs: []string{xsDir + "masks.tl"}, Marker: "VK/TL/RpcFunctionFetcher.php"},
 		{Name: "cpp-masks", Tool: "tlgen", Args: []string{"-language=cpp", "--cpp-generate-meta=true", "--cpp-generate-factory=true"}, Inputs: []string{xsDir + "masks.tl"}, Marker: "tlgen2_version.txt"},
+		// types whose names collide in the target language's identifiers (foo.bar / fooBar): instantiations over them are
+		// told apart by suffixes, and the assignment of suffixes must not follow an iteration order
+		{Name: "go-collide", Tool: "tl2gen", Args: append(append([]string{}, goBase...), "--pkgPath=github.com/VKCOM/tl/x/collide/tl", "--generateRPCCode", "--generateRandomCode"), Inputs: []string{xsDir + "collide.tl"}, Marker: "meta/meta.go"},
+		{Name: "go-collide-split-bytes", Tool: "tl2gen", Args: append(append([]string{}, goBase...), "--split-internal", "--pkgPath=github.com/VKCOM/tl/x/collide/tl", "--generateByteVersions=*"), Inputs: []string{xsDir + "collide.tl"}, Marker: "meta/meta.go"},
 		{Name: "go-dirs", Tool: "tl2gen", Args: append(append([]string{}, goBase...), "--pkgPath=github.com/VKCOM/tl/x/dirs/tl"), Inputs: []string{xsDir + "dirA", xsDir + "dirB", xsDir + "dirC"}, Marker: "meta/meta.go"},
 		{Name: "canonical-dirs", Tool: "tl2gen", Args: []string{"--language=canonical"}, Inputs: []string{xsDir + "dirA", xsDir + "dirB", xsDir + "dirC"}, Outfile: "dirs_canonical.tl", NoDir: true},
 		// the same file reachable through two roots with different spellings: rejected today in every order (the
@@ -402,6 +406,7 @@ type genScenario struct {
 	SchemaMask uint8   `json:"schema_mask,omitempty"`
 	Variants []variant `json:"variants"`
 	History  []histGen `json:"history,omitempty"`
+	OutdirLink bool    `json:"outdir_link,omitempty"` // the generator is given a symbolic link to the (existing, at first empty) output directory
 	Enumerate bool     `json:"enumerate"` // c16-direct: every crash index and error kind at every mutating op of the last generation
 }
 
@@ -413,6 +418,33 @@ func genVariant(r *rand.Rand, ninputs int) variant {
 		v.InputPerm = r.Perm(ninputs)
 	}
 	return v
+}
+
+// Large files are kept in scenarios and replay files as "@big:<size>:<position>:<version>" and expanded where they are
+// written and where they are compared: <size> bytes of numbered lines, the byte at <position> replaced by the version
+// digit, so that two versions of a file have the same length and differ in exactly one byte (head, middle or tail).
+func expandContent(s string) string {
+	var size, pos, ver int
+	if n, _ := fmt.Sscanf(s, "@big:%d:%d:%d", &size, &pos, &ver); n != 3 {
+		return s
+	}
+	var b strings.Builder
+	for i := 0; b.Len() < size; i++ {
+		fmt.Fprintf(&b, "// line %07d of a large generated file\n", i)
+	}
+	out := []byte(b.String()[:size])
+	if pos >= 0 && pos < size {
+		out[pos] = byte('0' + ver%10)
+	}
+	return string(out)
+}
+
+func expandFiles(files map[string]string) map[string]string {
+	out := make(map[string]string, len(files))
+	for k, v := range files {
+		out[k] = expandContent(v)
+	}
+	return out
 }
 
 func synthFiles(r *rand.Rand, universe int, marker string) map[string]string {
@@ -482,7 +514,20 @@ func (genEngine) Gen(seed uint64, params map[string]any) json.RawMessage {
 			}
 			sc.History = append(sc.History, h)
 		}
+		if params["enumerate"] != true && r.IntN(16) == 0 { // (a large file costs about thirty small histories)
+			// one large file through the whole history (size around the usual buffer and chunk sizes): its versions have
+			// equal length and differ in one byte at the head, in the middle, at the very end or somewhere in the tail
+			sizes := []int{4095, 4096, 4097, 32768, 65535, 65536, 65537, 70001, 98304, 131077}
+			size, name := sizes[r.IntN(len(sizes))], fmt.Sprintf("pkg0/big%d.txt", r.IntN(2))
+			for i := range sc.History {
+				if r.IntN(5) != 0 {
+					pos := []int{0, size / 2, size - 1, size - 1 - r.IntN(min(size, 70000))}[r.IntN(4)]
+					sc.History[i].Files[name] = fmt.Sprintf("@big:%d:%d:%d", size, pos, r.IntN(3))
+				}
+			}
+		}
 		sc.Enumerate = params["enumerate"] == true
+		sc.OutdirLink = !sc.Enumerate && r.IntN(8) == 0
 	case "c16-real":
 		// real generator histories: only triples that manage a directory
 		var dirTriples []int
@@ -564,6 +609,7 @@ func (genEngine) Gen(seed uint64, params map[string]any) json.RawMessage {
 			}
 			sc.History = append(sc.History, h)
 		}
+		sc.OutdirLink = params["enumerate"] != true && r.IntN(6) == 0
 	}
 	b, _ := json.Marshal(sc)
 	return b
@@ -942,7 +988,17 @@ func execC16(g *genCtx, sc genScenario, direct bool, logf func(string, ...any), 
 		d.Plant(elsewhere+"/pkg/keep1.txt", []byte("not part of any generation 1"))
 		d.Plant(elsewhere+"/pkg/sub/keep2.txt", []byte("not part of any generation 2"))
 		d.Plant(elsewhere+"/pkg/meta/marker.txt", []byte("a marker of somebody else"))
+		if sc.OutdirLink {
+			d.PlantDir(outdir)
+			d.PlantLink(simRoot+"/work/outlink", outdir)
+			g.probes["probe.c16_output_directory_given_as_symlink"]++
+		}
 		_ = os.WriteFile(disk, d.Snapshot(), 0o644)
+	}
+	// what the generator is told; the oracles look at the resolved location (the disk's operation log and tree hold resolved paths)
+	genOutdir := outdir
+	if sc.OutdirLink {
+		genOutdir = simRoot + "/work/outlink"
 	}
 	ts := triples()
 	prefix := outdir + "/"
@@ -989,9 +1045,9 @@ func execC16(g *genCtx, sc genScenario, direct bool, logf func(string, ...any), 
 		_ = beforeDirs
 		job := genJob{MapPolicy: hg.Variant.MapPolicy, NumCPU: hg.Variant.NumCPU, Strategy: hg.Variant.Strategy, TapeSeed: hg.Variant.TapeSeed, Fault: hg.Fault, DiskIn: disk, DiskOut: disk + ".new"}
 		if direct {
-			job.Direct = &directJob{Outdir: outdir, Files: hg.Files, Marker: marker}
+			job.Direct = &directJob{Outdir: genOutdir, Files: hg.Files, Marker: marker}
 		} else {
-			job.Args = tr.argsFor(outdir, hg.Variant)
+			job.Args = tr.argsFor(genOutdir, hg.Variant)
 		}
 		res, err := g.child(job)
 		if err != nil {
@@ -1085,6 +1141,7 @@ func execC16(g *genCtx, sc genScenario, direct bool, logf func(string, ...any), 
 				for k, v := range afterIn {
 					oldv, inOld := beforeIn[k]
 					newv, inNew := hg.Files[k]
+					newv = expandContent(newv)
 					okOld := inOld && bytes.Equal(oldv, v)
 					okNew := inNew && (normalised(k, newv) == string(v))
 					okTorn := inNew && hg.Fault != nil && hg.Fault.Kind == "torn" && strings.HasPrefix(normalised(k, newv), string(v))
@@ -1107,7 +1164,7 @@ func execC16(g *genCtx, sc genScenario, direct bool, logf func(string, ...any), 
 				if strings.HasPrefix(k, "..") {
 					continue
 				}
-				want[k] = []byte(normalised(k, v))
+				want[k] = []byte(normalised(k, expandContent(v)))
 			}
 			if d := diffTrees(want, afterIn); d != "" {
 				fail("C16/directory-not-exact", fmt.Sprintf("after successful generation %d (fault fired: %v) the output directory differs from the generation's file set: %s", gi, res.FaultFired, d))
